@@ -357,6 +357,10 @@ class SFixed(Template[_FixedTemplateArg], AssignableType):
                 does_overflow = not sign_bit and overflow_bits
                 does_underflow = sign_bit and ~overflow_bits
 
+                if selfleft - left >= self._width:
+                    # no common bit: every negative value is below the target range
+                    does_underflow = sign_bit
+
                 if selfright >= right:
                     zeros = selfright - right
 
